@@ -8,14 +8,14 @@ namespace BtcVerif.Model.ScriptEval
 open BtcVerif BtcVerif.Spec BtcVerif.Spec.Script BtcVerif.Model.Script
 
 /-- outcome of `VerifyScript` and of its parts: normal return, a ValidationError whose captured
-    state (when it is an EvalScriptError) is within the limits, or — only for a negative `inIdx`
-    (D7) or an inadmissible flag set (D6) — a foreign exception -/
+    state (when it is an EvalScriptError) is within the limits, or a foreign exception — only one that
+    `RawSignatureHash` raised (D7) or the AssertionError of an inadmissible flag set (D6) -/
 def VerOK (c : Ctx) (fl : Flags) {α : Type} : M α → Prop
   | .ok _ => True
   | .error (.eval cap) => Lim 520 cap.stack cap.altstack cap.nOpCount
   | .error .verify => True
   | .error (.invalid _) => False
-  | .error (.py _) => c.inIdx < 0 ∨ fl.admissible = false
+  | .error (.py cls) => c.Raises cls ∨ (cls = "AssertionError" ∧ fl.admissible = false)
 
 theorem verok_bind {c : Ctx} {fl : Flags} {α β : Type} {x : M α} {f : α → M β}
     (hx : VerOK c fl x) (hf : ∀ a, x = .ok a → VerOK c fl (f a)) : VerOK c fl (x >>= f) := by
@@ -73,7 +73,7 @@ theorem verifyCleanStack_verok {c : Ctx} {fl : Flags} (stack : List Bytes) :
     VerOK c fl (verifyCleanStack fl stack) := by
   unfold verifyCleanStack
   split_ifs with h1 h2 h3
-  · right; simp [Flags.admissible, h1]; simpa using h2
+  · right; exact ⟨rfl, by simp [Flags.admissible, h1]; simpa using h2⟩
   · trivial
   · trivial
   · trivial
